@@ -567,8 +567,6 @@ fn srv_payloads(full_len: usize) -> Vec<i32> {
 fn main() {
     let ctx = Ctx::from_args("C03", "exploration");
     let thorough = !ctx.quick();
-    let alpha = alphabet(thorough);
-
     if let Some((_key, case)) = ctx.replay_case() {
         let rt = vsim::rt();
         ctx.with_local(|l| {
@@ -607,42 +605,51 @@ fn main() {
     );
     ctx.assume("vref::wire walker (RFC 1035 4.1) is the reference for 'no bytes left over' and header counts");
 
-    // (a) encoder family
-    let k = alpha.len();
-    let (max_an, max_ns, max_ar) = if thorough { (3, 2, 1) } else { (2, 2, 1) };
-    let an = sequences(k, max_an);
-    let ns = sequences(k, max_ns);
-    let ar = sequences(k, max_ar);
-    let od = Odometer::new(&[an.len() as u64, ns.len() as u64, ar.len() as u64, 2, 2, 2]);
-    let space = od.space();
-    ctx.set("messages", json!(space));
-    ctx.par_run(space, 8, |i, l| {
-        let d = od.get(i);
-        let case = Case {
-            an: an[d[0] as usize].clone(),
-            ns: ns[d[1] as usize].clone(),
-            ar: ar[d[2] as usize].clone(),
-            edns: d[3] == 1,
-            tsig: d[4] == 1,
-            tc: d[5] == 1,
-        };
-        let full = match case.build(&alpha).to_vec() {
-            Ok(b) => b.len(),
-            Err(_) => return,
-        };
-        let top = (full + 2).min(65535);
-        for limit in 12..=top {
-            run_case(&case, limit as u16, &alpha, l);
-        }
-        for limit in [512u16, 1232, 4096, 65535] {
-            if (limit as usize) > top {
-                run_case(&case, limit, &alpha, l);
+    // (a) encoder family: quick = 7-record alphabet, <= (2,2,1) records per section; thorough adds
+    //     the 8-record alphabet (300-byte TXT) with <= (3,1,1) records per section
+    let mut families: Vec<(Vec<Record>, (usize, usize, usize))> = vec![(alphabet(false), (2, 2, 1))];
+    if thorough {
+        let deep = if std::env::var("VERIF_C03_DEEP").is_ok() { (3, 2, 1) } else { (3, 1, 1) };
+        families.push((alphabet(true), deep));
+    }
+    let mut total_messages = 0u64;
+    for (alpha, (max_an, max_ns, max_ar)) in &families {
+        let k = alpha.len();
+        let an = sequences(k, *max_an);
+        let ns = sequences(k, *max_ns);
+        let ar = sequences(k, *max_ar);
+        let od = Odometer::new(&[an.len() as u64, ns.len() as u64, ar.len() as u64, 2, 2, 2]);
+        let space = od.space();
+        total_messages += space;
+        ctx.par_run(space, 8, |i, l| {
+            let d = od.get(i);
+            let case = Case {
+                an: an[d[0] as usize].clone(),
+                ns: ns[d[1] as usize].clone(),
+                ar: ar[d[2] as usize].clone(),
+                edns: d[3] == 1,
+                tsig: d[4] == 1,
+                tc: d[5] == 1,
+            };
+            let full = match case.build(alpha).to_vec() {
+                Ok(b) => b.len(),
+                Err(_) => return,
+            };
+            let top = (full + 2).min(65535);
+            for limit in 12..=top {
+                run_case(&case, limit as u16, alpha, l);
             }
-        }
-        if i % 9973 == 0 {
-            l.sample(case.to_json((full / 2) as u16));
-        }
-    });
+            for limit in [512u16, 1232, 4096, 65535] {
+                if (limit as usize) > top {
+                    run_case(&case, limit, alpha, l);
+                }
+            }
+            if i % 9973 == 0 {
+                l.sample(case.to_json((full / 2) as u16));
+            }
+        });
+    }
+    ctx.set("messages", json!(total_messages));
 
     // (b) server path
     let mut zones = vec![];
